@@ -99,7 +99,7 @@ def confined (f : Fam) : St → Text → Bool
 inductive Hole where
   /-- schema description → `/**\n<text>\n*/` (write_optional_description) -/
   | desc
-  /-- string argument → `export default '… f(s: "<text>") …';` (query_text.ts, __refetch__N.ts) -/
+  /-- string argument → `export default '… f(s: "<text>") …';` (query_text.ts, __refetch__query_text__N.ts) -/
   | strSingle
   /-- string argument → `{ kind: "String", value: "<text>" }` (normalization_ast.ts, reader ASTs) -/
   | strDouble
@@ -128,9 +128,21 @@ def escapeCommentEnd : Text → Text
   | 42 :: 47 :: rest => 42 :: 92 :: 47 :: escapeCommentEnd rest
   | c :: rest => c :: escapeCommentEnd rest
 
-/-- The embedding function the code uses for each hole.  All but `desc` splice the text verbatim. -/
+/-- `query_text_as_single_quoted_js_string_body` (operation_text.rs, fix dc59a0f): a backslash directly before a
+line feed is the printer's own line continuation and is kept; every other backslash is doubled, every
+apostrophe gets a backslash. -/
+def escapeJsSq : Text → Text
+  | [] => []
+  | c :: rest =>
+    if c == 92 then (if rest.head? == some 10 then 92 :: escapeJsSq rest else 92 :: 92 :: escapeJsSq rest)
+    else if c == 39 then 92 :: 39 :: escapeJsSq rest
+    else c :: escapeJsSq rest
+
+/-- The embedding function the code uses for each hole: descriptions and the single-quoted operation text are
+escaped, the others are spliced verbatim. -/
 def Hole.embed : Hole → Text → Text
   | .desc, t => escapeCommentEnd t
+  | .strSingle, t => escapeJsSq t
   | _, t => t
 
 /-! ### Input domains: what can reach a hole at all -/
@@ -198,7 +210,7 @@ def Hole.domain : Hole → Text → Bool
 holes whose embedding is safe on the whole domain. -/
 def Hole.safe : Hole → Text → Bool
   | .desc, _ => true
-  | .strSingle, t => !t.contains 39
+  | .strSingle, _ => true
   | .strDouble, _ => true
   | .header, t => t.all fun c => !isLineTerminator c
   | .path, t => t.all fun c => c != 39 && c != 92 && c != 10 && c != 13
